@@ -73,6 +73,19 @@ mod verif_std_conv_addr {
         assert!(back.unwrap() == a);
     }
 
+    /// complete: the same for IPv6 socket addresses with ANY flow info and scope id -- the part of the value space `SocketAddr::new` cannot
+    /// build (e.g. a parsed "[fe80::1%5]:80"). Recorded as known finding F9: the wire format has no field for either, so they are lost.
+    #[kani::proof]
+    #[kani::unwind(18)]
+    #[kani::stub(std::backtrace::Backtrace::capture, no_backtrace)]
+    fn socket_addr_v6_scope_roundtrip() {
+        let o: [u8; 16] = kani::any();
+        let a = std::net::SocketAddr::V6(std::net::SocketAddrV6::new(std::net::Ipv6Addr::from(o), kani::any(), kani::any(), kani::any()));
+        let back = <std::net::SocketAddr as ProtoFmt>::read(&a.build());
+        assert!(back.is_ok());
+        assert!(back.unwrap() == a);
+    }
+
     /// bounded (ip field of at most 20 bytes, every content, port any u32 or absent): decoding a SocketAddr never panics.
     /// Lengths 0..=20 cover both accepted lengths (4, 16), their neighbours and the rejecting arm.
     #[kani::proof]
